@@ -1,5 +1,6 @@
 import LdkModel.Driver.Util
 import LdkModel.Model.TxBuilder
+import LdkModel.Model.Closing
 namespace Ldk.Driver
 open Ldk Ldk.TxB
 
@@ -48,6 +49,18 @@ def c01txb : Drv where
       | none => ((), "panic")
       | some b =>
         ((), s!"ok {b.toBroadcaster} {b.toCountersignatory} {b.commitTxFeeSat} | {natList (sortNat (b.nondust.map (·.amount_msat)))} | {natList (sortNat (outputValues t (nat! chan) b))}")
+    -- cooperative close (translated build_closing_transaction / fee limits / weight)
+    | ["close", vts, chan, dust, funder, fee, skip] =>
+      let v : Closing.View := { valueToSelfMsat := nat! vts, chanValueSat := nat! chan, dust := nat! dust, isFunder := funder == "1", minFee := 0, maxFee := 0 }
+      match Closing.closingTx v (nat! fee) (skip == "1") with
+      | none => ((), "err")
+      | some (h, c, u) => ((), s!"ok {h} {c} {u} | {natList (sortNat ([h, c].filter (· > 0)))}")
+    | ["climits", funder, estMin, estNormal, target, fr, fc, chan, vts, rlen, la, lb] =>
+      let w := Closing.get_closing_transaction_weight (nat! rlen) (some (nat! la)) (some (nat! lb))
+      let bounded (x : Nat) := Nat.max x FEERATE_FLOOR_SATS_PER_KW   -- LowerBoundedFeeEstimator
+      let t : Option Nat := if target == "-" then none else some (nat! target)
+      let r := Closing.calculate_closing_fee_limits (funder == "1") (bounded (nat! estMin)) (bounded (nat! estNormal)) t (nat! fr) w (nat! fc) (nat! chan) (nat! vts)
+      ((), s!"{r.1} {r.2} {w}")
     | _ => ((), "bad-op")
 
 end Ldk.Driver
